@@ -85,7 +85,10 @@ def draw_stream_cfg(rng, frag, sources=('rec',), max_elems=8, terminals=('comple
             'source': rng.choice(sources), 'handler_delay': draw_wait(rng, timed)}
 
 
-def draw_config(rng, links_allowed=('bytes', 'bytes', 'bytes', 'messages', 'messages', 'ws'),
+WITH_WS = ('bytes', 'bytes', 'bytes', 'messages', 'messages', 'ws')
+
+
+def draw_config(rng, links_allowed=('bytes', 'messages'),
                 frags=(None, 64, 65, 70, 100, 1024), timed=True):
     link = rng.choice(links_allowed)
     cfg = {'link': link,
